@@ -1385,6 +1385,10 @@ func genC07(c *ctx) {
 		b.emit(st, "att/"+class, true, "")
 	}
 	emitCacheDischarge(c, st)
+	{
+		b := newBuilder(c.r.Fork())
+		b.emit(st, "att/old-format-token-repeated-nonce-field", true, staleNonceForgeryOracle())
+	}
 }
 
 // ---------------------------------------------------------------- C08: proofs are final
